@@ -220,20 +220,30 @@ def build_parser(shape, eoe, mode, variant, files_dir):
     elif shape == "subcommands":
         p.add_argument("--cfg", action=ActionConfigFile)
         p.add_argument("--t", type=int, default=0)
-        s1 = ArgumentParser(exit_on_error=eoe)
+        # what the sub-command parsers are CONSTRUCTED with: add_subcommand must overwrite it with the root's mode
+        sub_eoe = variant.get("sub_eoe", "same")
+
+        def sub_parser():
+            if sub_eoe == "default":
+                return ArgumentParser()
+            if sub_eoe == "opposite":
+                return ArgumentParser(exit_on_error=not eoe)
+            return ArgumentParser(exit_on_error=eoe)
+
+        s1 = sub_parser()
         s1.add_argument("--a", type=int, default=1)
         s1.add_argument("--n.x", type=str)
         s1.add_argument("--lst", type=List[int])
-        s2 = ArgumentParser(exit_on_error=eoe)
+        s2 = sub_parser()
         s2.add_argument("--b", type=List[int])
         s2.add_argument("--c", type=Optional[M.Base])
         sc = p.add_subcommands(required=bool(variant.get("required", True)))
         sc.add_subcommand("s1", s1)
         sc.add_subcommand("s2", s2)
         if variant.get("nested"):
-            x = ArgumentParser(exit_on_error=eoe)
+            x = sub_parser()
             x.add_argument("--p", type=int)
-            y = ArgumentParser(exit_on_error=eoe)
+            y = sub_parser()
             y.add_argument("--q", type=Dict[str, int])
             sc2 = s2.add_subcommands(required=True, dest="sub2")
             sc2.add_subcommand("x", x)
@@ -371,6 +381,9 @@ def gen_argv(rng, shape, m):
     if shape == "subcommands" and rng.random() < 0.7:
         pos = rng.randint(0, len(out))
         out.insert(pos, rng.choice(["s1", "s1", "s2", "s2", "s3"]))
+        if rng.random() < 0.5:
+            # something for the sub-command parser itself to reject (or accept)
+            out.append(rng.choice(["--a=x", "--a", "--zz=1", "--lst=[1, 2", "--n.x", "--b=x", "--b=[1]", "--c=no.such", "--a=2", "junk", "--n.zz=1"]))
         if rng.random() < 0.3:
             out.append(rng.choice(["x", "y", "z"]))
             if rng.random() < 0.6:
@@ -485,6 +498,8 @@ def gen_case(rng, thorough=False):
     method = rng.choice(["parse_args", "parse_args", "parse_args", "parse_object", "parse_object", "parse_string", "parse_string", "parse_env", "parse_path"])
     variant = {"env": rng.random() < 0.15, "required": rng.random() < 0.5, "positional": rng.random() < 0.3, "nested": rng.random() < 0.5,
                "defcfg": rng.random() < 0.12}
+    if shape == "subcommands":
+        variant["sub_eoe"] = rng.choice(["same", "default", "opposite"])
     case = {"shape": shape, "eoe": rng.random() < 0.5, "mode": mode, "method": method, "variant": variant,
             "stdin": rng.choice(["empty", "empty", "closed", "text"]), "files": {}}
     if rng.random() < 0.2:
